@@ -135,7 +135,7 @@ def instance_action_args(ctx):
                   "actions are initialised with the template action's arguments", "init receives " + a[0][:80])
     for i in te:
         a = [rg.text(x) for x in rg.nodes[i]["args"]]
-        ctx.check('"cgroup"' in a[0] and (cgn + ".relativePath()") in a[1] and rg.nodes[i]["cname"] == "try_emplace",
+        ctx.check('"cgroup"' in a[0] and (cgn + ".relativePath()") in a[1] and rg.nodes[i]["cname"] in ("try_emplace", "emplace", "insert"),        # (none of the three replaces an existing entry)
                   "cgroup-default-does-not-override", "value-shape", rg.loc(i),
                   "try_emplace(\"cgroup\", instance path): an explicit 'cgroup' argument wins", "default inserted by %s(%s)" % (rg.nodes[i]["cname"], ", ".join(a)[:80]))
     # the map starts as the configured arguments (so that the default can only fill a gap)
@@ -475,9 +475,11 @@ def run(ctx):
         t = X(rg.nodes[i]["args"][0])
         if which == "action_group":
             t0 = re.sub(r"^std::move\((.*)\)$", r"\1", t)
-            if t0.startswith("var:"):
+            rr_ = rg.root_ref(rg.nodes[i]["args"][0])
+            empty_init = t0 in ("std::unique_ptr()", "{}", "nullptr") and rr_ is not None and rr_ >= 0 and rg.nodes[rr_].get("k") == "ref" and rg.nodes[rr_].get("dk") == "local"
+            if t0.startswith("var:") or empty_init:
                 # a local that is (re)assigned: every value it can hold has to be a newly created plugin
-                nm = t0[4:]
+                nm = t0[4:] if t0.startswith("var:") else rg.nodes[rr_]["name"]
                 defs = []
                 init_, v_ = local_init(rg, nm, must=False)
                 if v_ is not None and init_ is not None and init_ >= 0:
@@ -487,7 +489,28 @@ def run(ctx):
                         defs.append(X(rg.nodes[j]["args"][0]) if rg.nodes[j].get("args") else "nullptr")
                 for w in local_writes(rg, nm, must=False):
                     defs.append(X(write_rhs(rg, w)))
-                ok = bool(defs) and all("Oomd::getPluginRegistry().create(" in d for d in defs)
+                # ... or it is handed by mutable reference to a local closure that re-creates it (`renew(plugin)`): what the closure
+                # stores into its parameter counts as a definition; an empty initialiser (`std::unique_ptr<T> plugin;`) does not
+                for j in rg.calls():
+                    nj = rg.nodes[j]
+                    pts_ = nj.get("ptypes") or []
+                    for k_, a_ in enumerate(nj.get("args", [])):
+                        an_ = rg.nodes[rg.strip(a_)]
+                        if an_.get("k") == "ref" and an_.get("name") == nm and k_ < len(pts_) and pts_[k_].rstrip().endswith("&") and not pts_[k_].lstrip().startswith("const "):
+                            for e_ in ctx.cg.out.get(rg.usr, ()):
+                                if e_.node == j and e_.dst in P.fns:
+                                    cl_ = P.fns[e_.dst]
+                                    if k_ >= len(cl_.params):
+                                        continue
+                                    pn_ = cl_.params[k_]["name"]
+                                    Xc_ = Expander(P, cl_)
+                                    for r_ in cl_.calls("reset"):
+                                        if cl_.text(cl_.nodes[r_].get("recv", -1)) == pn_:
+                                            defs.append(Xc_(cl_.nodes[r_]["args"][0]) if cl_.nodes[r_].get("args") else "nullptr")
+                                    for w_ in local_writes(cl_, pn_, must=False):
+                                        defs.append(Xc_(write_rhs(cl_, w_)))
+                defs = [d for d in defs if d not in ("std::unique_ptr()", "{}", "nullptr", "std::unique_ptr(nullptr)")] if len(defs) > 1 else defs
+                ok = bool(defs) and all("getPluginRegistry().create(" in d or re.search(r"\bregistry\.create\(", d) for d in defs)
                 t = " | ".join(defs)
             else:
                 ok = t0.startswith("Oomd::getPluginRegistry().create(") or "Oomd::getPluginRegistry().create(" in t0[:80]
